@@ -112,6 +112,13 @@ func (writer *dataWriter) CopyIn(format FormatCode) (*CopyReader, error) {
 		return nil, err
 	}
 
+	// NOTE: whatever is left of the message which started the copy operation
+	// is not part of the copy-in stream and has to be discarded.
+	_, err = writer.reader.GetBytes(len(writer.reader.Msg))
+	if err != nil {
+		return nil, err
+	}
+
 	return NewCopyReader(writer.reader, writer.client, writer.columns), nil
 }
 
